@@ -86,9 +86,12 @@ def traces_of(case, graph):
         near = [(p[0] + 0.13, p[1] - 0.11) for p in P]
         n = len(P) - 1
         idx = [(0, n // 2, n), (0, n, 1), (1, n - 1, 0), (0, 1, n), (n, n // 2, 0), (n // 2, 0, n - 1)]
-        return [t for t in ms.axis_traces(graph) if len(t) == 3] + [[near[min(i, n)] for i in t] for t in idx]
+        four = [[near[0], al.FAR[pos], near[n // 2], near[n]], [near[0], near[n // 2], al.FAR[pos], near[n]]]
+        return [t for t in ms.axis_traces(graph) if len(t) == 3] + [[near[min(i, n)] for i in t] for t in idx] + four
     if case["slice"] == "hist":
-        return [t for t in trace_set(pos, case["T"], n_obs=3, with_far=(case.get("tier") == "thorough")) if len(t) == case["T"]]
+        o = al.OBS[pos]
+        four = [[o[0], al.FAR[pos], o[1], o[2]], [o[0], o[1], al.FAR[pos], o[2]]]
+        return [t for t in trace_set(pos, case["T"], n_obs=3, with_far=(case.get("tier") == "thorough")) if len(t) == case["T"]] + four
     return trace_set(pos, case["T"], n_obs=4, with_far=False)
 
 
